@@ -3,6 +3,6 @@
 package cache
 
 // Scheduler hooks: no-ops unless built with the "vsched" tag (and the vsync overlay).
-func verifSpawn()                                         {}
-func verifThreadDone()                                    {}
+func verifSpawn()                                             {}
+func verifThreadDone()                                        {}
 func verifYieldRecv(events chan *event, stop <-chan struct{}) {}
